@@ -964,6 +964,22 @@ func ruleC11Escape(c *Checker) {
 				if guarded(r.Block(), t) {
 					absOK = true
 				}
+				// or by the failed edge of a comma-ok type assertion of b to the local-source type
+				_, notLocal := condEdges(fn, func(v ssa.Value) bool {
+					ex, ok := v.(*ssa.Extract)
+					if !ok || ex.Index != 1 {
+						return false
+					}
+					ta, ok := ex.Tuple.(*ssa.TypeAssert)
+					if !ok || !ta.CommaOk || canon(ta.X) != ssa.Value(b) {
+						return false
+					}
+					n, ok := types.Unalias(ta.AssertedType).(*types.Named)
+					return ok && n.Obj().Name() == "LocalSource"
+				})
+				if guarded(r.Block(), notLocal) {
+					absOK = true
+				}
 			}
 		}
 		c.check(absOK, R, name, "absolute argument returned unchanged", p.Pos(fn.Pos()), "b is returned itself on the is-absolute edge", "an absolute second argument is no longer returned unchanged")
